@@ -183,8 +183,8 @@ def _validate_pandas(
     warnings.filterwarnings("ignore", category=FutureWarning)
 
     # Strip UTF-8 BOM from column names (e.g. DataFrames read from BOM-encoded CSVs)
-    bom_stripped = [str(col).removeprefix("\ufeff") for col in data.columns]
-    data.columns = pd.Index(bom_stripped)
+    # Work on a renamed copy: the caller's DataFrame must not be modified.
+    data = data.rename(columns=lambda col: str(col).removeprefix("\ufeff"))
 
     # Identifier checking
     id_names = [comp_name for comp_name, comp in components.items() if comp.role == Role.IDENTIFIER]
